@@ -21,6 +21,9 @@ def factory(prop):
     if prop in ("C12", "C13"):
         from engines.mem import MemCheck
         return MemCheck(prop)
+    if prop == "C06":
+        from engines.deadlines import DeadlineCheck
+        return DeadlineCheck()
     raise SystemExit(f"unknown property {prop}")
 
 
